@@ -213,6 +213,15 @@ pub fn shapes(attacker: &str, victim: &str) -> Vec<String> {
     .iter()
     .map(|s| (*s).to_owned())
     .collect();
+    // other spellings of a client id are other keys: nothing below them belongs to the client
+    for who in [attacker, victim] {
+        let simple = who.replace('-', "");
+        for spelled in [simple.clone(), who.to_uppercase(), format!("{{{who}}}"), format!("urn:uuid:{who}")] {
+            for leaf in ["graveGoods", "lastWill", "clientName"] {
+                v.push(format!("$SYS/clients/{spelled}/{leaf}"));
+            }
+        }
+    }
     for who in [attacker, victim] {
         for leaf in ["graveGoods", "lastWill", "clientName", "protocol", "address", "subscriptions", "#", "?", "graveGoods/#", "other"] {
             v.push(format!("$SYS/clients/{who}/{leaf}"));
@@ -295,7 +304,7 @@ pub fn run(ctx: &Ctx) -> Evidence {
         ev.count("events_on_own_entries_or_server_counters", obs.events_on_bookkeeping);
         ev.count("attacker_sessions_ended", obs.sessions_ended);
     });
-    let sequences = ctx.tier.pick(600usize, 20_000usize);
+    let sequences = ctx.tier.pick(12_000usize, 200_000usize);
     let base = Rng::new(ctx.seed);
     par_shards(&mut ev, 64, |shard, ev| {
         let runner = Runner::new(false);
